@@ -93,10 +93,10 @@ Definition check03_growth_multi (rt : Q) (rep : bool) (dG dens : Q) (nb ne : nat
 
 (* ---- nucleation terms: which values are overwritten, which are kept -------------------------------------------------- *)
 Definition nsl (s : nslice Qops) : list Q := [n_dG Qops s; n_beta Qops s; n_Gcrit Qops s; n_Rcrit Qops s; n_rate Qops s; n_Rnuc Qops s].
-Definition check03_nuc (rt : Q) (rep : bool) (Rmin minDens dtprev : Q) (prev : nslice Qops) (o : noracle Qops)
+Definition check03_nuc (rt : Q) (rep zeroed : bool) (Rmin minDens dtprev : Q) (prev : nslice Qops) (o : noracle Qops)
                        (impl : option (list Q)) :=
   let tie := near_tie rt (Qred (o_rate Qops o * dtprev)) minDens in
-  match nucStep Qops rep Rmin minDens dtprev prev o, impl with
+  match nucStep Qops rep zeroed Rmin minDens dtprev prev o, impl with
   | Err _, None => (true, tie)
   | Ok s, Some l => ((tie || eql (nsl s) l)%bool, tie)
   | _, _ => (false, tie)
